@@ -3,7 +3,7 @@
    granularity of the scheduling hook points). All theorems quantify over every program list, every
    initial buffering mode and pending buffer, and EVERY schedule (list of task ids of any length). *)
 From Coq Require Import List NArith.
-From AnyTLS Require Import Bytes Cmd Generated FactsConc Frame Conc ConcInv ConcLin.
+From AnyTLS Require Import Bytes Cmd Generated FactsConc Frame Conc ConcInv ConcLin ConcOrder.
 Import ListNotations.
 
 (* writer-lock discipline in every reachable state: the holder is exactly the task inside its
@@ -50,6 +50,17 @@ Theorem C11_linearisation_point : forall s t s',
   exists k f, (pcof s t = PW1 k f \/ pcof s t = PW3 k f) /\ lin s' = lin s ++ [(t, f)].
 Proof. exact step_lin_point. Qed.
 Print Assumptions C11_linearisation_point.
+
+(* per-task order, directly: for every schedule, while the session is open, the frames of task t in the log (hence, by
+   C11_wire_is_log, on the wire / in flight / pending, in that order) are exactly the frames t has submitted so far --
+   `t_sub`, appended whenever t enters write_frame: the SYN inside open_stream, then its data frames in program
+   order -- except the one it is still submitting (`in_hand`) *)
+Theorem C11_task_order : forall progs buf pend sched t,
+  Forall (fun x => fst x <> t) pend ->
+  let s := run (init progs buf pend) sched in
+  closed s = false -> mine t (lin s) ++ in_hand (pcof s t) = t_sub (tasks s t).
+Proof. exact run_order. Qed.
+Print Assumptions C11_task_order.
 
 (* the client's settings frame (buffered by start_client before any other task exists) is the first
    frame of the session *)
